@@ -204,45 +204,120 @@ def _lib_frame_on_stack():
     return None
 
 
+def _fs(path):
+    return _os.fspath(path) if isinstance(path, _os.PathLike) else path
+
+
+def _routes(w):
+    """World-side implementation for every guarded real function (None: no simulated counterpart)."""
+    osf = OsFacade(w)
+    return {
+        "builtins.open": lambda path, mode="r", *a, **k: w.open(_fs(path), mode, *a, **k),
+        "io.open": lambda path, mode="r", *a, **k: w.open(_fs(path), mode, *a, **k),
+        "os.urandom": w.urandom,
+        "random._urandom": w.urandom,
+        "os.getenv": osf.getenv,
+        "os.getcwd": osf.getcwd,
+        "os.stat": lambda path, *a, **k: osf.stat(_fs(path)),
+        "os.lstat": lambda path, *a, **k: osf.stat(_fs(path)),
+        "os.access": lambda path, mode=0, **k: osf.access(_fs(path), mode),
+        "os.listdir": lambda path=".": osf.listdir(_fs(path)),
+        "os.replace": lambda a, b, **k: osf.replace(_fs(a), _fs(b)),
+        "os.rename": lambda a, b, **k: osf.replace(_fs(a), _fs(b)),
+        "os.remove": lambda path, **k: osf.remove(_fs(path)),
+        "os.unlink": lambda path, **k: osf.remove(_fs(path)),
+        "os.mkdir": lambda path, mode=0o777, **k: osf.mkdir(_fs(path), mode),
+        "os.makedirs": lambda path, mode=0o777, exist_ok=False: osf.makedirs(_fs(path), mode, exist_ok),
+        "posixpath.expanduser": lambda path: w.expanduser(_fs(path)),
+        "socket.gethostbyname": w.gethostbyname,
+    }
+
+
 def _guard(name, fn):
+    """Wrap a real process-level function: a call that has a library frame on its stack did not go through the module
+    globals the simulator replaced (``from os import urandom``, ``pathlib``, ``secrets``...).  It is served by the
+    world when the world has a counterpart -- so that a library which reaches the operating system another way is
+    still simulated and journaled -- and is a seam gap (HARNESS-ERROR, never a verdict) otherwise."""
     def guarded(*a, **k):
         w = _installed
         if w is not None:
             where = _lib_frame_on_stack()
             if where:
-                w.escapes.append((name, where))
-                raise SeamGap("escape: real %s reached from %s" % (name, where))
+                route = _route_table.get(name)
+                if route is None:
+                    w.escapes.append((name, where))
+                    raise SeamGap("escape: real %s reached from %s" % (name, where))
+                w.rerouted[name] = w.rerouted.get(name, 0) + 1
+                return route(*a, **k)
         return fn(*a, **k)
     guarded.__name__ = getattr(fn, "__name__", name)
     guarded._cincosim_guard = True
+    guarded._cincosim_name = name
     return guarded
 
 
-_GUARDED = [(builtins, "open"), (_os, "urandom"), (_os, "open"), (_os, "replace"), (_os, "rename"),
-            (_os, "remove"), (_os, "unlink"), (_os, "mkdir"), (_os, "makedirs"),
-            (_socket, "gethostbyname"), (_socket, "getaddrinfo")]
+import io as _io      # noqa: E402
+import random as _random      # noqa: E402
+
+_GUARDED = [(builtins, "open", "builtins.open"), (_io, "open", "io.open"), (_os, "urandom", "os.urandom"),
+            (_random, "_urandom", "random._urandom"), (_os, "open", "os.open"), (_os, "replace", "os.replace"),
+            (_os, "rename", "os.rename"), (_os, "remove", "os.remove"), (_os, "unlink", "os.unlink"), (_os, "mkdir", "os.mkdir"),
+            (_os, "makedirs", "os.makedirs"), (_os, "stat", "os.stat"), (_os, "lstat", "os.lstat"), (_os, "access", "os.access"),
+            (_os, "listdir", "os.listdir"), (_os, "getcwd", "os.getcwd"), (_os, "getenv", "os.getenv"),
+            (posixpath, "expanduser", "posixpath.expanduser"),
+            (_socket, "gethostbyname", "socket.gethostbyname"), (_socket, "getaddrinfo", "socket.getaddrinfo")]
+_REAL0 = {name: getattr(owner, attr) for owner, attr, name in _GUARDED}      # the real functions, captured before any guard
+_REAL_ENVIRON = _os.environ
+_route_table = {}
+
+
+def _by_value(world, osf, sockf):
+    """Replacement for real objects a library module may hold under any name (``from os import urandom``,
+    ``import os as _os``, ``from os.path import exists``...)."""
+    out = {id(_os): osf, id(posixpath): osf.path, id(_socket): sockf, id(_REAL_ENVIRON): world.env}
+    routes = _routes(world)
+    for name, real in _REAL0.items():
+        if name in routes:
+            out[id(real)] = routes[name]
+    for fn in ("exists", "lexists", "isfile", "isdir", "abspath", "realpath", "getsize", "relpath", "islink"):
+        out[id(getattr(posixpath, fn))] = getattr(osf.path, fn)
+    return out
 
 
 def install(world):
     """Route every seam of the library into ``world`` and arm the escape detector."""
-    global _installed
+    global _installed, _route_table
     if _installed is not None:
         uninstall()
     osf, sockf = OsFacade(world), SocketFacade(world)
+    if not hasattr(world, "rerouted"):
+        world.rerouted = {}
+    byval = _by_value(world, osf, sockf)
     for mod in _lib_modules():
         d = mod.__dict__
-        _saved[mod.__name__] = {k: d.get(k, _MISSING) for k in ("open", "os", "socket")}
+        saved = {k: d.get(k, _MISSING) for k in ("open", "os", "socket")}
         d["open"] = world.open
         d["os"] = osf
         d["socket"] = sockf
+        for k, v in list(d.items()):
+            if k in ("open", "os", "socket") or k.startswith("__"):
+                continue
+            if getattr(v, "_cincosim_guard", False):
+                v = _REAL0.get(v._cincosim_name, v)
+            rep = byval.get(id(v))
+            if rep is not None:
+                saved[k] = d[k]
+                d[k] = rep
+        _saved[mod.__name__] = saved
     _saved["__key"] = Config.DEFAULT_CINCOKEY_FILEPATH
     Config.DEFAULT_CINCOKEY_FILEPATH = World.DEFAULT_KEY
-    for owner, name in _GUARDED:
-        fn = getattr(owner, name)
+    _route_table = _routes(world)
+    for owner, attr, name in _GUARDED:
+        fn = getattr(owner, attr)
         if getattr(fn, "_cincosim_guard", False):
             continue
-        _real[(owner, name)] = fn
-        setattr(owner, name, _guard(owner.__name__ + "." + name, fn))
+        _real[(owner, attr)] = fn
+        setattr(owner, attr, _guard(name, fn))
     _installed = world
     return world
 
